@@ -37,7 +37,8 @@ def run(prop, tier, seed, scratch, replay=None):
     subst = {"NoRollback = {}": "NoRollback = " + NOROLLBACK[prop]}
     if prop == "C10":
         subst["ACTION_CONSTRAINT EmitStep"] = "ACTION_CONSTRAINT EmitStepPre"
-    bfs = vlib.run_tlc(scratch, "AddrMgr.tla", cfg, out_traces=traces, tag="bfs", cfg_subst=subst,
+    every = EVERY_C10[tier] if prop == "C10" else EVERY[tier][fam]
+    bfs = vlib.run_tlc(scratch, "AddrMgr.tla", cfg, out_traces=traces, tag="bfs", cfg_subst=subst, emit_every=every, emit_offset=seed,
                        timeout=3000 if tier == "thorough" else 600)
     vlib.require_tlc_ok(bfs, "exhaustive exploration")
     cfgtext = open(os.path.join(vlib.SPEC, cfg)).read()
@@ -60,8 +61,7 @@ def run(prop, tier, seed, scratch, replay=None):
     scope = vlib.run_tlc(scratch, "AddrMgr.tla", "MC_AddrMgr_scope_quick.cfg", out_traces=sctr, tag="scope", cfg_subst=dict(subst), timeout=600)
     vlib.require_tlc_ok(scope, "exhaustive exploration (custom scope)")
     every = EVERY_C10[tier] if prop == "C10" else EVERY[tier][fam]
-    vlib.run_driver(drv, ["-in", traces, "-out", report, "-prop", prop, "-seed", seed,
-                          "-every", every, "-offset", seed % every, "-workers", vlib.NCPU], timeout=7200)
+    vlib.run_driver(drv, ["-in", traces, "-out", report, "-prop", prop, "-seed", seed, "-workers", vlib.NCPU], timeout=7200)
     rep = vlib.load_report(report)
     report2 = scratch.path("report2.json")
     vlib.run_driver(drv, ["-in", simtr, "-out", report2, "-prop", prop, "-seed", seed, "-workers", vlib.NCPU], timeout=7200)
@@ -88,7 +88,7 @@ def run(prop, tier, seed, scratch, replay=None):
         "explanation": "TLC explored spec/AddrMgr.tla exhaustively under %s (depth %d) checking Inv and the action properties; "
                        "%s transition of that state graph (each with the shortest history reaching it) was replayed on the real "
                        "waddrmgr.Manager with wallet seeds derived from VERIF_SEED=%d, plus %d random walks of 30 steps over more scopes/accounts."
-                       % (cfg, bfs["depth"], "every" if every == 1 else "every %d-th" % every, seed, sim["ntraces"]),
+                       % (cfg, bfs["depth"], "every" if every == 1 else "one in %d (sampled inside TLC)" % every, seed, sim["ntraces"]),
         "replayed_steps": rep["steps"] + rep2["steps"], "simulated_behaviours": sim["ntraces"],
         "tlc_bfs_wall_s": bfs["wall_s"], "checker_cmd": bfs["cmd"],
         "custom_scope_stage": {"cfg": "MC_AddrMgr_scope_quick.cfg", "states": scope["distinct"], "transitions": scope["generated"],
